@@ -41,6 +41,7 @@ def generate(rng, tier):
         if sp['base'] == 'discr' and dtype == 'int64':
             sp['dtype'] = 'float64'
     nst = rng.randint(2, 4)
+    sp['layouts'] = [rng.choice(['C', 'C', 'F', 'strided']) for _ in range(nst)]
     ufs = _ufuncs()
     ops = []
     for _ in range(rng.randint(5, 14)):
@@ -112,7 +113,15 @@ class Store(object):
         self.space = space
         self.arr = arr
         self.elem = space.element(arr)
-        self.model = np.array(arr, copy=True)
+        # the model array has the *same memory layout* as the storage: NumPy
+        # picks different inner loops (SIMD / FMA) for contiguous and strided
+        # data, which differ in the last bit
+        if arr.base is not None and not arr.flags.c_contiguous and \
+                not arr.flags.f_contiguous:
+            base = np.array(arr.base, copy=True)
+            self.model = base[..., 1::2]
+        else:
+            self.model = np.array(arr, copy=True, order='K')
 
     def handle(self, kind):
         if kind == 'arr':
@@ -151,6 +160,15 @@ def execute(plan, ctx):
         arr = SP.rand_array(S.shape, S.dtype, g)
         if np.dtype(S.dtype).kind in 'iu':
             arr = np.asarray(g.integers(1, 6, size=S.shape)).astype(S.dtype)
+        lay = (sp.get('layouts') or ['C'])[s % len(sp.get('layouts') or ['C'])]
+        if lay == 'F':
+            arr = np.asfortranarray(arr)
+        elif lay == 'strided':
+            big = np.zeros(arr.shape[:-1] + (2 * arr.shape[-1] + 1,),
+                           dtype=arr.dtype)
+            view = big[..., 1::2]
+            view[...] = arr
+            arr = view
         st = Store(S, arr)
         # wrapping an array of matching dtype and shape shares memory
         ea = elem_arrays(st.elem)[0]
